@@ -399,6 +399,36 @@ def jshOp (op : String) (H : Heap) (v : HVal) : Option String :=
       (devList [(heapHole H v, "export_array_hole")]))
   | _ => none
 
+/-! ### re-entrant calls and API edge cases -/
+
+def shadow? : String → Option Shadow
+  | "none" => some .none | "var" => some .var | "param" => some .param | "catch" => some .catch | "with" => some .with
+  | _ => none
+
+def reentry? : String → Option Reentry
+  | "ottoCall" => some .ottoCall | "ottoCallThis" => some .ottoCallThis | "ottoRun" => some .ottoRun
+  | "ottoEval" => some .ottoEval | "valueCall" => some .valueCall | "objectCall" => some .objectCall | _ => none
+
+def bindingOut : Binding → String | .global => "global" | .local => "local"
+
+def apiCase? : String → Option ApiCase
+  | "runThrowToStringThrows" => some .runThrowToStringThrows | "runThrowUnconvertible" => some .runThrowUnconvertible
+  | "badIsNaN" => some .badIsNaN | "badToString" => some .badToString | "badToInteger" => some .badToInteger
+  | "badToFloat" => some .badToFloat | "badToBoolean" => some .badToBoolean | "badString" => some .badString
+  | "badClass" => some .badClass | "callerLocationNoScript" => some .callerLocationNoScript
+  | "callerLocationScript" => some .callerLocationScript | "setNilObject" => some .setNilObject
+  | "toValueNilObject" => some .toValueNilObject | "argNilObject" => some .argNilObject
+  | "toValueNilValue" => some .toValueNilValue | "marshalFunction" => some .marshalFunction
+  | "marshalObjectWithFunction" => some .marshalObjectWithFunction | "marshalUndefined" => some .marshalUndefined
+  | "callTwoStatements" => some .callTwoStatements | "callTwoStatementsThis" => some .callTwoStatementsThis
+  | "callExprStatement" => some .callExprStatement | _ => none
+
+def apiOutTok : ApiOut → String
+  | .goPanic => "panic"
+  | .errPlain => "err"
+  | .errClass c => "throw:" ++ c
+  | .text s => "t:" ++ bytesOut (OttoVerif.Str.ofString s)
+
 /-! ### calls -/
 
 def asciiOut (bs : List Nat) : String := String.ofList (bs.map Char.ofNat)
@@ -469,6 +499,14 @@ def handle (ws : List String) : String :=
   | ["jsh", op, root, heap] => match hval? root, heap? heap with
     | some v, some H => (jshOp op H v).getD "bad-op"
     | _, _ => "bad-op"
+  | ["reent", r, sh, _member, _depth] => match reentry? r, shadow? sh with
+    | some r, some sh =>
+      let sp := bindingOut (Spec.reentryResolves r sh)
+      reply (bindingOut (reentryResolves r sh) ++ "#" ++ sp) (sp ++ "#" ++ sp) "-"
+    | _, _ => "bad-op"
+  | ["api", c] => match apiCase? c with
+    | some c => reply (apiOutTok (apiModel c)) (apiOutTok (Spec.apiSpec c)) ((Spec.Dev.apiRegion c).getD "-")
+    | none => "bad-op"
   | "callx" :: kind :: mem :: this :: ex :: args => match path? kind mem this, exit? ex, goVals? args with
     | some p, some b, some gs => callxOp p b gs
     | _, _, _ => "bad-op"
